@@ -18,6 +18,7 @@ In production the subscriber callbacks run in the communicator thread; here "the
 deliveries are plain loop handles that belong to no process.
 """
 import asyncio
+import pickle
 import sys
 
 import kiwipy
@@ -66,6 +67,15 @@ class Net:
 
 def _isfuture(value):
     return isinstance(value, kiwipy.Future) or asyncio.isfuture(value)
+
+
+def wire(obj):
+    """What the receiving side gets: a value that went through a serialiser (new objects, equal values) - a real broker
+    never hands over the sender's own objects.  Unpicklable payloads (none in the generated traffic) pass as they are."""
+    try:
+        return pickle.loads(pickle.dumps(obj))
+    except Exception:  # noqa: BLE001
+        return obj
 
 
 class SimCommunicator(kiwipy.CommunicatorHelper):
@@ -141,7 +151,7 @@ class SimCommunicator(kiwipy.CommunicatorHelper):
                 return
             try:
                 with self.loop.foreign_thread():  # in production this call happens in the communicator's thread
-                    result = subscriber(self, msg)
+                    result = subscriber(self, wire(msg))
             except Exception as exc:  # noqa: BLE001 - goes back to the caller as a RemoteException
                 if not reply.done():
                     reply.set_exception(kiwipy.RemoteException(str(exc)))
@@ -170,7 +180,8 @@ class SimCommunicator(kiwipy.CommunicatorHelper):
             for subscriber in list(self._broadcast_subscribers.values()):
                 try:
                     with self.loop.foreign_thread():
-                        subscriber(self, body=body, sender=sender, subject=subject, correlation_id=correlation_id)
+                        subscriber(self, body=wire(body), sender=wire(sender), subject=wire(subject),
+                                   correlation_id=correlation_id)
                 except Exception:  # noqa: BLE001 - as kiwipy: logged, other subscribers still get it
                     pass
 
@@ -188,7 +199,7 @@ class SimCommunicator(kiwipy.CommunicatorHelper):
             for subscriber in list(self._task_subscribers.values()):
                 try:
                     with self.loop.foreign_thread():
-                        result = subscriber(self, task)
+                        result = subscriber(self, wire(task))
                 except kiwipy.TaskRejected:
                     continue
                 except Exception:  # noqa: BLE001
